@@ -289,17 +289,10 @@ def genParser (syn : List SProd) (tokIds : List String) : Except String LRResult
   let maxStates := 4096
   let states := lrLoop C maxStates 0 #[{ items := init }]
   let terms := S.terminals
-  let mut action : Array (Array (Option Act)) := #[]
-  let mut conflicts := 0
-  for st in states do
-    let mut row : Array (Option Act) := #[]
-    let mut cf := false
-    for t in terms do
-      let r ← setAction C st t
-      row := row.push r.1
-      cf := cf || r.2
-    action := action.push row
-    if cf then conflicts := conflicts + 1
+  -- one action row per state: `getActionRowData` calls `set.Action(sym)` for every terminal; a panic in any of them aborts gocc
+  let rows ← states.toList.mapM fun st => terms.mapM (setAction C st)
+  let action : Array (Array (Option Act)) := (rows.map fun row => (row.map (·.1)).toArray).toArray
+  let conflicts := (rows.filter fun row => row.any (·.2)).length
   let gotoT := states.map fun st => (S.ntList.map fun nt => match st.next nt with
     | some n => (n : Int)
     | none => -1).toArray
